@@ -64,7 +64,7 @@ theorem shrinkLast_inv {s : Stream} (hs : StreamInv s) : StreamInv (shrinkLast s
     exact flatMap_modifyLast _ (fun (g : Group) => g.records.toList) (by intro g; simp only [hrecs]) _
   have hb : absStream (shrinkLast s) = absStream s := by
     unfold absStream; rw [hr]; rfl
-  refine ⟨⟨?_, by rw [hr]; exact hs.recs, by rw [hr]; exact hs.count, by rw [hb]; exact hs.listSz, ?_⟩, hb⟩
+  refine ⟨⟨?_, by rw [hr]; exact hs.recs, by rw [hr]; exact hs.count, by rw [hb]; exact hs.listSz, ?_, ?_⟩, hb⟩
   · intro g hg
     unfold shrinkLast CTree.toList at hg
     simp only [Tree.toList_modifyRightmost] at hg
@@ -76,6 +76,16 @@ theorem shrinkLast_inv {s : Stream} (hs : StreamInv s) : StreamInv (shrinkLast s
   · unfold shrinkLast CTree.toList
     simp only [Tree.toList_modifyRightmost, Spec.modifyLast_length]
     exact hs.gcount
+  · unfold shrinkLast CTree.toList
+    simp only [Tree.toList_modifyRightmost]
+    have hb' := hs.gbases
+    unfold CTree.toList at hb'
+    by_cases hne : s.groups.root.toList = []
+    · rw [hne]; exact groupsOk_nil
+    · obtain ⟨gfront, g, hg⟩ := exists_snoc hne
+      rw [hg, Spec.modifyLast_append_singleton]
+      rw [hg] at hb'
+      apply groupsOk_replace_last hb' <;> (split <;> rfl)
 
 theorem dropLast_append_of_ne {α : Type} (a : List α) {b : List α} (h : b ≠ []) : (a ++ b).dropLast = a ++ b.dropLast := by
   obtain ⟨init, z, rfl⟩ := exists_snoc h
@@ -240,10 +250,11 @@ theorem foldl_records_toList : ∀ (l : List Group) (a : Array Rec),
 
 theorem streamInv_of_recs {s s' : Stream} (hs : StreamInv s) (hr : s'.allRecs = s.allRecs)
     (hc : s'.recordCount = s.recordCount) (hl : s'.indexListSize = s.indexListSize)
-    (hne : ∀ g ∈ s'.groups.toList, g.records.size ≠ 0) (hg : s'.groups.count = s'.groups.toList.length) :
+    (hne : ∀ g ∈ s'.groups.toList, g.records.size ≠ 0) (hg : s'.groups.count = s'.groups.toList.length)
+    (hgb : GroupsOk s'.groups.toList) :
     StreamInv s' ∧ (absStream s').blocks = (absStream s).blocks := by
   have hb : (absStream s').blocks = (absStream s).blocks := by unfold absStream; simp only [hr]
-  exact ⟨⟨hne, by rw [hr]; exact hs.recs, by rw [hc, hr]; exact hs.count, by rw [hl, hb]; exact hs.listSz, hg⟩, hb⟩
+  exact ⟨⟨hne, by rw [hr]; exact hs.recs, by rw [hc, hr]; exact hs.count, by rw [hl, hb]; exact hs.listSz, hg, hgb⟩, hb⟩
 
 theorem dupStream_inv {s : Stream} (hs : StreamInv s) :
     StreamInv (dupStream s) ∧ absStream (dupStream s) = absStream s
@@ -258,7 +269,7 @@ theorem dupStream_inv {s : Stream} (hs : StreamInv s) :
     have hr : s.allRecs = [] := by unfold Stream.allRecs; rw [hl]; rfl
     have hr' : ({ s with groups := CTree.empty } : Stream).allRecs = s.allRecs := by rw [hr]; rfl
     obtain ⟨a, b⟩ := streamInv_of_recs (s' := { s with groups := CTree.empty }) hs hr' rfl rfl
-      (by intro g hg; simp [CTree.toList, CTree.empty, Tree.toList] at hg) rfl
+      (by intro g hg; simp [CTree.toList, CTree.empty, Tree.toList] at hg) rfl groupsOk_nil
     refine ⟨a, ?_, rfl, rfl, rfl, rfl⟩
     unfold absStream at b ⊢; simp only at b ⊢; rw [b]
   · next hnn =>
@@ -293,6 +304,10 @@ theorem dupStream_inv {s : Stream} (hs : StreamInv s) :
         have : recs.size = s.allRecs.length := by rw [← hrecs]; simp
         rw [this]; intro h; exact hpos (List.length_eq_zero_iff.mp h))
       (by rw [htl, CTree.count_append]; rfl)
+      (by
+        rw [htl]
+        have := groupsOk_snoc groupsOk_nil g rfl rfl rfl
+        simpa using this)
     refine ⟨a, ?_, rfl, rfl, rfl, rfl⟩
     unfold absStream at b ⊢; simp only at b ⊢; rw [b]
 
